@@ -252,6 +252,11 @@ def run_case(col, r, idx):
             if zero_width_ids(store) != z0:
                 col.violation(f'zero-width-tokens-created-or-dropped:{kind}', f'after {desc}: the multiset of zero-width tokens changed', wit)
                 return
+            n_tokens = sum(1 for _ in store)
+            if len(store) != n_tokens:
+                # (what the store says about its own length decides whether a model prints at all: an "empty" store prints '')
+                col.violation(f'store-length-drift:{kind}', f'after {desc}: len(store) == {len(store)}, the store holds {n_tokens} tokens', wit)
+                return
             if common.pr(f) != t0:
                 col.violation(f'printed-text-changed:{kind}', f'after {desc}: print(document) changed', dict(wit, now=common.pr(f)))
                 return
